@@ -16,16 +16,19 @@ for mp in sorted(glob.glob(os.path.join(HERE, 'seeded', '*', 'meta.json'))):
                 break
     first_miss = any(not h.get('caught', True) for h in d.get('history', []) if 'caught' in h)
     chk = d.get('checks', {})
+    if not d.get('caught') and d.get('caught_before_fix_D37'):
+        chk = d.get('checks_before_fix_D37', {})
     clauses = sorted(set(c for v in chk.values() for c in v.get('clauses_reported', [])))[:4]
     rows.append((name, title[:110], 'yes' if d.get('repo_tests_pass', True) else 'NO',
                  '%s→%s' % (d.get('demo_exit_unmodified'), d.get('demo_exit_patched')),
-                 'caught' if d.get('caught') else 'MISSED', 'missed at first; check strengthened' if first_miss and d.get('caught') else '',
+                 'caught' if d.get('caught') else ('caught on the tree before fix D37 (harmless after it)' if d.get('caught_before_fix_D37') else 'MISSED'),
+                 'missed at first; check strengthened' if first_miss and (d.get('caught') or d.get('caught_before_fix_D37')) else '',
                  ', '.join(clauses)))
 out = ['| change | mechanism (the sub-agent\'s words) | repo tests pass | demo exit clean→patched | quick check | note | clauses that fired |',
        '|---|---|---|---|---|---|---|']
 for r in rows:
     out.append('| ' + ' | '.join(r) + ' |')
-caught = sum(1 for r in rows if r[4] == 'caught')
+caught = sum(1 for r in rows if r[4].startswith('caught'))
 out.append('')
 out.append('%d seeded changes kept, %d caught by the quick tier of the property\'s own check (after strengthening where noted).' % (len(rows), caught))
 txt = '\n'.join(out)
